@@ -2118,7 +2118,7 @@ func TestVerifC15(t *testing.T) {
 	verifC15FastTmp()
 	defer verifC15Finish(vc)
 
-	total := vc.N(3000, 200000)
+	total := vc.N(3000, 300000)
 	for i := 0; i < total; i++ {
 		if !vc.Mine(i) {
 			continue
@@ -2160,7 +2160,7 @@ func TestVerifC15Conc(t *testing.T) {
 	verifC15FastTmp()
 	defer verifC15Finish(vc)
 
-	total := vc.N(600, 20000)
+	total := vc.N(600, 30000)
 	for i := 0; i < total; i++ {
 		if !vc.Mine(i) {
 			continue
